@@ -1,7 +1,8 @@
-\* C04 design-level check: all site combinations x the rows given, no injected failure
+\* C04 design-level check (small default; checks/C04.py passes the tier's Sites/Rows):
+\* all listed site combinations x rows, no injected failure
 CONSTANTS
-  Sites = {0,1,2,3,4,5,6,7}
-  Rows = {0}
+  Sites = {0,1,2,3,8,9,10,24,27,64,72,88,128,129,136,137,200,201,256,457,511}
+  Rows = {0,1,2,7,256,511}
   FailMode = "none"
   Lsbs = {{}}
 SPECIFICATION Spec
